@@ -531,6 +531,8 @@ def verdicts(case, r):
 
 
 def run_case(case, acc=None):
+    if case.get("kind") == "chain":
+        return run_chain_case(case, acc)
     fails = []
     try:
         cj, r = run_halmos(case)
@@ -778,6 +780,50 @@ def split_st():
     return st.builds(mk, st.sampled_from([1, 3, 5, 100]), st.sampled_from([1, 2]), st.booleans(), st.sampled_from([1, 2, 2]), st.sampled_from([None, "order", "nomerge"]), st.integers(1, 1 << 20))
 
 
+def chain_st():
+    """a target whose two paths end in identical storage layout but differ in a branch on a value that
+    is tied to the stored symbol through a chain of `links` equalities over further arguments:
+    g(x0..xk){ if (xk < 5) {} else {}; require(x[i] == x[i+1] + 1) for all i; s0 = x0; s1 = 1 }.
+    invariant_lo (s0 != k + 1, broken with xk = 1) and invariant_hi (s0 != k + 98, broken with xk = 98)
+    are both violated at depth 1"""
+    return st.builds(lambda links, seed, meta: {"kind": "chain", "links": links, "seed": seed, "meta": meta}, st.integers(1, 4), st.integers(1, 1 << 20), st.sampled_from([None, "nomerge"]))
+
+
+def run_chain_case(case, acc=None):
+    k = case["links"]
+    body = [["if", ["op2", "LT", e2e.arg(k), ["c", 5]], [["mstore", 0x80, ["c", 1]]], [["mstore", 0x80, ["c", 2]]]]]
+    for i in range(k):
+        body.append(["if", ["op2", "EQ", e2e.arg(i), ["op2", "ADD", e2e.arg(i + 1), ["c", 1]]], [], [["revert", 0, 0]]])
+    body += [["sstore", ["c", 0], e2e.arg(0)], ["sstore", ["c", 1], ["c", 1]], ["stop"]]
+    sig = "g(" + ",".join(["uint256"] * (k + 1)) + ")"
+    tfns = [{"sig": sig, "body": body}] + [dict(g) for g in GETTER_FNS]
+    tcj, tcreation, _ = e2e.artifact("A", tfns)
+    setup = [["create", "CREATE", ["c", 0], tcreation.hex(), ["c", 0], 0x3E0], ["sstore", ["c", ADDR_SLOT], ["mload", 0x3E0]], ["stop"]]
+    fake = {"targets": [{"name": "A", "fns": []}]}
+    fns = [{"sig": "setUp()", "body": setup}]
+    for i, c in enumerate((k + 1, k + 98)):
+        fns.append({"sig": f"invariant_i{i}()", "body": inv_body({"contract": "A", "slot": 0, "cmp": "ne", "c": c}, fake)})
+    cj, _, _ = e2e.artifact("T", fns)
+    a = e2e.mk_args(invariant_depth=1, solver_timeout_assertion=30.0)
+    fails = []
+    try:
+        if case.get("meta") == "nomerge":
+            with NoMerge():
+                r = e2e.run(cj, args=a, others={"A": tcj})
+        else:
+            r = e2e.run(cj, args=a, others={"A": tcj})
+    except Exception as e:
+        return [(["run-raise", type(e).__name__], repr(e)[:300])]
+    by = r.by_sig()
+    for i, w in enumerate((1, 98)):
+        tr = by.get(f"invariant_i{i}()")
+        if tr is None or tr.exitcode != 1:
+            fails.append((["chain", "missed-break", f"links:{k}"], f"g({', '.join(str(w + k - j) for j in range(k + 1))}) breaks invariant_i{i} (s0 != {w + k}) after one call; halmos reports {None if tr is None else tr.exitcode}"))
+    if acc is not None:
+        acc.case(case, k >= 2, klass=["chain", f"links:{k}"])
+    return fails
+
+
 def balance_st():
     """targets that read their own balance after payable calls (halmos does not move the value of
     top-level invariant calls: known finding, every bucket of this family is prefixed reads-balance)"""
@@ -793,7 +839,7 @@ def balance_st():
 
 def shards(tier):
     n = 40 if tier == "quick" else 600
-    return [{"mode": "hyp", "n": n} for _ in range(14)] + [{"mode": "confluent", "n": n}, {"mode": "permute", "n": n // 2}, {"mode": "balance", "n": 6}, {"mode": "split", "n": n // 2}]
+    return [{"mode": "hyp", "n": n} for _ in range(14)] + [{"mode": "confluent", "n": n}, {"mode": "permute", "n": n // 2}, {"mode": "balance", "n": 6}, {"mode": "split", "n": n // 2}, {"mode": "chain", "n": 8}]
 
 
 def run_shard(spec, seed, tier):
@@ -803,7 +849,7 @@ def run_shard(spec, seed, tier):
         for b, d in run_case(case, acc):
             acc.fail(b, case, d)
 
-    run_cases({"confluent": confluent_st, "permute": permute_st, "hyp": case_st, "balance": balance_st, "split": split_st}[spec["mode"]](), body, spec["n"], seed)
+    run_cases({"confluent": confluent_st, "permute": permute_st, "hyp": case_st, "balance": balance_st, "split": split_st, "chain": chain_st}[spec["mode"]](), body, spec["n"], seed)
     return acc
 
 
